@@ -15,7 +15,9 @@ import (
 	"pgregory.net/rapid"
 )
 
-var ordinaryNames = []string{"name", "test", "x", "extra_1", "@meta", "Publi", "o", "p", "arr", "a-b", "Z9", "nested", "also", "keys", "_", "@", "0"}
+var ordinaryNames = []string{"name", "test", "x", "extra_1", "@meta", "Publi", "o", "p", "arr", "a-b", "Z9", "nested", "also", "keys", "_", "@", "0",
+	// ordinary = free of JSON-pointer (/ ~) and quoting (" \ control) metacharacters; everything else is just a name
+	"discount%", "a%%b", "50%off", "%s", "%d%v", "with space", "dot.name", "colon:name", "é", "名前", "a+b", "q?", "#hash", "a&b", "<tag>", "$ref", "[0]", "{x}", "a=b", "😀", "%", "100%"}
 
 func genOrdinaryMembers(t *rapid.T, min, max int) map[string]interface{} {
 	out := map[string]interface{}{}
@@ -25,7 +27,7 @@ func genOrdinaryMembers(t *rapid.T, min, max int) map[string]interface{} {
 		if rapid.Bool().Draw(t, "sampledName") {
 			name = rapid.SampledFrom(ordinaryNames).Draw(t, "ordinaryName")
 		} else {
-			name = rapid.StringMatching(`[A-Za-z0-9_@-]{1,12}`).Draw(t, "ordinaryName")
+			name = rapid.StringMatching(`[A-Za-z0-9_@%. :+?#&<>$=-]{1,12}`).Draw(t, "ordinaryName")
 		}
 		if len(name) >= 7 && name[:7] == "service" || len(name) >= 9 && name[:9] == "publicKey" || name == "id" || name == "alsoKnownAs" {
 			continue
@@ -51,6 +53,14 @@ func checkPatchEncoding(t *rapid.T, p patch.Patch, wantAction string, wantValue 
 	b, err := p.Bytes()
 	if err != nil {
 		t.Fatalf("C14 Bytes(): %v", err)
+	}
+	// the bytes belong to the caller: serializing again, or serializing something else, leaves them alone
+	snapshot := string(b)
+	b2, _ := p.Bytes()
+	_, _ = patch.Patch{"action": "remove-services", "ids": []interface{}{"unrelated-patch-serialized-in-between"}}.Bytes()
+	_, _ = document.Document{"unrelated": "document serialized in between", "pad": snapshot + snapshot}.Bytes()
+	if string(b) != snapshot || string(b2) != snapshot {
+		t.Fatalf("C14 bytes returned by Bytes() changed while other values were serialized:\n first  %s\n now    %s\n second %s", snapshot, b, b2)
 	}
 	back, err := patch.FromBytes(b)
 	if err != nil {
@@ -124,8 +134,12 @@ func TestC14_DocumentRoundTrip(t *testing.T) {
 		}
 		// the same patches through their byte encoding
 		var reparsed []patch.Patch
+		var kept [][]byte
 		for _, p := range patches {
 			b, _ := p.Bytes()
+			kept = append(kept, b)
+		}
+		for _, b := range kept { // all serialized first, parsed afterwards
 			q, err := patch.FromBytes(b)
 			if err != nil {
 				t.Fatalf("C14 FromBytes: %v", err)
@@ -253,6 +267,8 @@ func TestC14_Constructors(t *testing.T) {
 			t.Fatalf("C14 FromBytes accepted %s: %s -> %s", label, refJCS(m), patchCanon(q))
 		}
 		st.Case(true, action+"|"+refJCS(want)+"|"+label, "constructor-"+action, "reject-"+label)
-		st.Sample("patch-"+action, 1, func() interface{} { return map[string]interface{}{"patch": mustJSON(string(b)), "refused": m, "why": label} })
+		st.Sample("patch-"+action, 1, func() interface{} {
+			return map[string]interface{}{"patch": mustJSON(string(b)), "refused": m, "why": label}
+		})
 	})
 }
